@@ -85,10 +85,10 @@ def norm(lines):
     return [re.sub(r"\s+", " ", l).strip() for l in lines]
 
 
-def read(text, fixed, length_limit=True):
+def read(text, fixed, length_limit=True, **marks):
     rd = loader.import_repo("ford.reader")
     with realrun.project_dir({"t.f": text}) as d:
-        return norm(list(rd.FortranReader(os.path.join(d, "t.f"), docmark="!", fixed=fixed, length_limit=length_limit)))
+        return norm(list(rd.FortranReader(os.path.join(d, "t.f"), docmark="!", fixed=fixed, length_limit=length_limit, **marks)))
 
 
 def cases(seed=0, extra_random=40, keep_n=400):
@@ -150,7 +150,7 @@ def inline_comment_on_continued_line():
 
 
 def search(seed=0, keep_n=400):
-    hit = limit_off_case() or inline_comment_on_continued_line() or preprocessed_fixed_case() or comment_lines_between_continuations() or included_fixed_form() or alternate_block_then_blank_line()
+    hit = limit_off_case() or inline_comment_on_continued_line() or preprocessed_fixed_case() or preprocessed_by_extension() or comment_lines_between_continuations() or included_fixed_form() or alternate_block_then_blank_line()
     if hit:
         return hit
     n = 0
@@ -237,19 +237,40 @@ def included_fixed_form():
 def form_by_extension():
     """the source form of a file follows from its extension alone: every extension of `fixed_extensions` (f, for, F, FOR with the defaults) is read as fixed form, whether or not it
     is also one of the extensions sent through the preprocessor; everything else as free form"""
-    fixed = "      module legacy_{0}\n      integer n{0}\nC     an old-style comment line\n      common /blk{0}/ n{0}\n      end module legacy_{0}\n"
-    free = "module modern_{0}\n  integer :: m{0}  ! free form: text may start in column 1\nend module modern_{0}\n"
+    fixed = "      module legacy_{0}\n      integer n{0},\nC     an old-style comment line\n     &        k{0}\n      end module legacy_{0}\n"
+    free = "module modern_{0}\n  integer :: m{0}, &  ! free form: text may start in column 1\nj{0}\nend module modern_{0}\n"
     exts_fixed, exts_free = ["f", "for", "F", "FOR"], ["f90", "F90", "f95", "f03", "f08"]
     files = {f"src/legacy_{k}.{e}": fixed.format(k) for k, e in enumerate(exts_fixed)}
     files.update({f"src/modern_{k}.{e}": free.format(k) for k, e in enumerate(exts_free)})
     try:
         proj = realrun.build_project(files, preprocess=False, dbg=True)
-        got = sorted(m.name for m in proj.modules)
+        got = sorted((m.name, [v.name for v in m.variables]) for m in proj.modules)
     except Exception as e:
         got = f"{type(e).__name__}: {e}"
-    want = sorted([f"legacy_{k}" for k in range(len(exts_fixed))] + [f"modern_{k}" for k in range(len(exts_free))])
+    want = sorted([(f"legacy_{k}", [f"n{k}", f"k{k}"]) for k in range(len(exts_fixed))] + [(f"modern_{k}", [f"m{k}", f"j{k}"]) for k in range(len(exts_free))])
     if got != want:
         return {"confirmed": True, "input": {"files": files}, "actual": got, "expected": want, "how": "real Project with the default extension lists: modules found in fixed-form files of every fixed extension and free-form files of every free one"}
+    return None
+
+
+def preprocessed_by_extension():
+    """a file whose extension is both a fixed-form and a preprocessed one (.F, .FOR with the defaults) goes through the preprocessor like its free-form twin (.F90):
+    the same conditional code is documented"""
+    import shutil
+    pcpp = shutil.which("pcpp") or "/venv/bin/pcpp"
+    if not os.path.exists(pcpp):
+        return None
+    fixed = ("      subroutine relax(tol)\n#ifdef USE_DOUBLE\n      double precision tol\n#else\n      real tol\n#endif\n      end subroutine relax\n#ifdef WITH_DIAG\n      subroutine diag()\n      end subroutine diag\n#endif\n")
+    free = ("subroutine relax90(tol)\n#ifdef USE_DOUBLE\n  double precision tol\n#else\n  real tol\n#endif\nend subroutine relax90\n#ifdef WITH_DIAG\nsubroutine diag90()\nend subroutine diag90\n#endif\n")
+    try:
+        proj = realrun.build_project({"src/solver.F": fixed, "src/solver90.F90": free}, preprocess=True, preprocessor=f"{pcpp} -D__GFORTRAN__ --passthru-comments", macro=["USE_DOUBLE=1"])
+        got = sorted((p.name, [a.full_type for a in p.args]) for p in proj.procedures)
+    except Exception as e:
+        got = f"{type(e).__name__}: {e}"
+    want = [("relax", ["double precision"]), ("relax90", ["double precision"])]
+    if got != want:
+        return {"confirmed": True, "input": {"files": {"src/solver.F": fixed, "src/solver90.F90": free}, "macro": "USE_DOUBLE=1"}, "actual": got, "expected": want,
+                "how": "real Project with preprocessing on: procedures and argument types documented for a fixed-form .F file and its free-form .F90 twin"}
     return None
 
 
@@ -259,10 +280,11 @@ def alternate_block_then_blank_line():
         fixed = f"      subroutine foo(a)\nC*    alternate block about foo\nC     goes on here\n{blank}\nC     Implementation note: not documentation\n*     neither is this\n      integer a\n      end subroutine foo\n"
         free = f"subroutine foo(a)\n!* alternate block about foo\n! goes on here\n{blank}\n! Implementation note: not documentation\n! neither is this\ninteger a\nend subroutine foo\n"
         try:
-            a, b = read(free, False), read(fixed, True, True)
+            marks = dict(predocmark=">", docmark_alt="*", predocmark_alt="|")      # the default marks of the settings
+            a, b = read(free, False, **marks), read(fixed, True, True, **marks)
         except Exception as e:
             return {"confirmed": True, "input": {"fixed": fixed}, "actual": f"{type(e).__name__}: {e}", "expected": "reads like the free-form rendering", "how": "real FortranReader(fixed=True)"}
-        if a != b:
+        if a != b or not any("alternate block" in l for l in a) or any("Implementation note" in l for l in a):
             return {"confirmed": True, "input": {"fixed": fixed, "free": free}, "actual": b, "expected": a,
                     "how": "real FortranReader(fixed=True) vs the free-form rendering: an alternate documentation block, a blank line, ordinary comments"}
     return None
